@@ -531,8 +531,15 @@ func runE1(c *vf.Ctx, id string) {
 		jobs = jj
 		c.Cap("debug filter VERIF_E1_ONLY=" + only)
 	}
-	// largest first for better balance
-	sort.SliceStable(jobs, func(i, j int) bool { return jobs[i].size > jobs[j].size })
+	// largest first for better balance; the ring-2 shards 1..7 of small file seeds come last, so that a time budget
+	// that runs out cuts into ring 2 of the file seeds and not into ring 1 of anything
+	late := func(j job) bool { return strings.Contains(j.level, "#") && !strings.HasPrefix(j.level, "file#0/") }
+	sort.SliceStable(jobs, func(i, j int) bool {
+		if late(jobs[i]) != late(jobs[j]) {
+			return !late(jobs[i])
+		}
+		return jobs[i].size > jobs[j].size
+	})
 	nw := 16
 	var mu sync.Mutex
 	next := 0
